@@ -11,7 +11,7 @@ from .cpu import QvmCpu, QVM_DEVICES
 from .cell import CellType
 from .trap import TrapCode
 from .subterminal import SubTerminal
-from .utils import format_number, parse_float
+from .utils import format_number, parse_float, parse_int
 from .exceptions import DeviceError
 
 
@@ -351,7 +351,7 @@ class TerminalDevice(Device):
             for v, vtype in reversed(list(zip(values, var_types))):
                 if vtype == 1:  # INTEGER
                     try:
-                        v = int(v)
+                        v = parse_int(v)
                     except ValueError:
                         return False
                     if v < -32768 or v > 32767:
@@ -359,7 +359,7 @@ class TerminalDevice(Device):
                     pushes.append((CellType.INTEGER, v))
                 elif vtype == 2:  # LONG
                     try:
-                        v = int(v)
+                        v = parse_int(v)
                     except ValueError:
                         return False
                     if v < -2**31 or v >= 2**31:
@@ -467,10 +467,10 @@ class DataDevice(Device):
 
         try:
             if data_type == 1:
-                value = 0 if s == Empty.value else int(s)
+                value = 0 if s == Empty.value else parse_int(s)
                 self.cpu.push(CellType.INTEGER, value)
             elif data_type == 2:
-                value = 0 if s == Empty.value else int(s)
+                value = 0 if s == Empty.value else parse_int(s)
                 self.cpu.push(CellType.LONG, value)
             elif data_type == 3:
                 value = 0.0 if s == Empty.value else parse_float(s)
